@@ -35,6 +35,8 @@ fn unum(v: &Value) -> u64 {
         Value::Object(o) => match o["sym"].as_str().unwrap() {
             "U64MAX" => u64::MAX,
             "U32MAX" => u32::MAX as u64,
+            "I64MAX" => i64::MAX as u64,
+            "P53P1" => (1u64 << 53) + 1,
             s => panic!("unknown symbol {}", s),
         },
         _ => v.as_u64().unwrap_or_else(|| panic!("bad unsigned {}", v)),
